@@ -551,6 +551,11 @@ def gen_session(s, faults=True, table=TEMPLATES, max_ops=40):
     if faults:
         p = s.choice([0.0, 0.1, 0.3, 0.6])
         for cid, prog in clients.items():
+            if any(st['op'].startswith('G.') for st in prog):
+                # finite-difference ops amplify the legitimate rounding difference of a re-ordered reduction by
+                # 1/eps^2 and by the conditioning of J: no tolerance is sound there, so programs containing Godambe
+                # calls get no layout faults (their layout independence is covered on well-conditioned cases in C19)
+                continue
             for k, st in enumerate(prog):
                 for ai, a in enumerate(st.get('a', [])):
                     if isinstance(a, dict) and ('$' in a or '$tuple' in a) and s.chance(p):
